@@ -15,6 +15,7 @@ import (
 var cmds = map[string]func([]string) int{
 	"mbox":          mbox.Main,
 	"body":          msgh.MainBody,
+	"msg":           msgh.MainMsg,
 	"b2f-c01":       b2f.MainC01,
 	"b2f-c02":       b2f.MainC02,
 	"b2f-c04":       b2f.MainC04,
